@@ -14,6 +14,8 @@ def run(ck):
     ck.mc("Retry", "Retry.mc.cfg", timeout=3000)     # NoStaleJobAtEnd: finished futures leave _jobs
     # f_timeout's executor, shared through a weak reference and kept alive by pending futures only
     ck.mc("SharedTimeout", "SharedTimeout.mc2.cfg" if quick else "SharedTimeout.mc.cfg", timeout=3000)
+    # the registry of shutdown-aware events against the exit hook, constructions and reclaimed events
+    ck.mc("ExitRegistry", "ExitRegistry.mc2.cfg" if quick else "ExitRegistry.mc.cfg", timeout=3000)
     tasks = []
     # placement sweep in the real code: the action lands at every step index of the handling of a submission
     for kind in KINDS:
